@@ -22,7 +22,8 @@ RULE = (
     "join strings, typed trees. Oracle 1: reference renderer of the documented prefix grammar, compared line by "
     "line; oracle 2: prefix decoder rebuilds depth / last-sibling / has-children flags and the shape from the "
     "prefixes alone (styles with distinguishable segments). Non-trivial: rendered branch has depth >= 3 and a "
-    "non-last inner node; distinct = distinct (forest, start). Part render-mutate-render renders ONE tree (tree and "
+    "non-last inner node; distinct = distinct (forest, start). Half of the random cases first start a rendering that "
+    "is not completed (a dropped format_iter() generator, a repr callback raising below the top level). Part render-mutate-render renders ONE tree (tree and "
     "one start node, 2-3 generated option sets, one of them without title line) before a generated mutation history "
     "(move, remove, sort, clear, add, ...), after a generated subset of its steps and at its end - also trees that "
     "were emptied again (non-trivial there: >= 2 renderings, one of a branch as above)."
@@ -319,10 +320,41 @@ def run_exhaustive(case, rec):
     rec.evals += ev
 
 
+class _Abort(Exception):
+    pass
+
+
+def abandoned_renderings(tree, w, how):
+    """Renderings that do not run to completion: a line generator that is dropped half-way, a repr callback that
+    raises below the top level.  Whatever they leave behind must not show in later renderings (of any tree)."""
+    deep = [n for n in w.pre if w.depth[id(n)] >= 3]
+    if how in (1, 3):
+        it = tree.format_iter(repr="{node.data}")
+        for _ in range(max(2, len(w.pre) - 1)):
+            if next(it, None) is None:
+                break
+        it.close()
+    if how in (2, 3) and deep:
+        victim = deep[-1]
+
+        def bad_repr(n):
+            if n is victim:
+                raise _Abort()
+            return f"{n.data}"
+
+        try:
+            tree.format(repr=bad_repr)
+        except _Abort:
+            pass
+
+
 def run_random(case, rec):
     typed = case["typed"]
     tree, nodes = build(case["spec"], typed=typed, name="T")
     w = walk(tree)
+    if case.get("abandon"):
+        abandoned_renderings(tree, w, case["abandon"])
+        rec.cls("after-an-abandoned-rendering")
     start_i = case["start"]
     start = None if start_i < 0 or not nodes else nodes[start_i % len(nodes)]
     roots = w.kids[id(None)] if start is None else [start]
@@ -399,6 +431,7 @@ def hyp_cases(draw, tier):
         "add_self": draw(st.booleans()),
         "repr": draw(st.sampled_from(["default", "fmt", "fmt2", "callable", "trailing-space", "sometimes-empty"])),
         "join": draw(st.sampled_from([None, "\n", ", ", "\r\n", ";"])),
+        "abandon": draw(st.sampled_from([0, 0, 0, 1, 2, 3])),
     }
 
 
